@@ -446,6 +446,14 @@ func eachMutation(comp string, n int, vals []byte, fn func(m Mut)) {
 	fn(Mut{Comp: comp, Op: "append", Val: 0xA7})
 }
 
+func eachXor(comp string, n int, vals []byte, fn func(m Mut)) {
+	for pos := 0; pos < n; pos++ {
+		for _, v := range vals {
+			fn(Mut{Comp: comp, Op: "xor", Pos: pos, Val: v})
+		}
+	}
+}
+
 var allXor = func() []byte {
 	v := make([]byte, 0, 255)
 	for i := 1; i < 256; i++ {
@@ -479,6 +487,11 @@ func (e *env) evalSymMut(c Case) []finding {
 	}
 	m := c.Mut
 	switch m.Comp {
+	case "integrity-value":
+		ct, err = wrapWithMutatedIV(k.Octets, want, m)
+		if err != nil {
+			return []finding{{"machinery/reference-encrypt-failed", err.Error()}}
+		}
 	case "ciphertext", "wrapped-key":
 		ct = m.apply(ct)
 	case "tag":
@@ -528,4 +541,16 @@ func (e *env) tally(present cryptoref.Fault, dir int, a *algInfo, c Case) {
 	if a.Known && a.Ref.Symmetric() && (a.Ref.NonceLen == 0 && c.Nonce != 0 || !a.Ref.AAD && c.AAD != 0 || dir == 1 && a.Ref.TagLen == 0 && c.Tag != 0) {
 		e.st[stIgnoredArg]++
 	}
+}
+
+// wrapWithMutatedIV is the reference's RFC 3394 wrapping with an initial value
+// that differs from the default A6A6A6A6A6A6A6A6 as the mutation says (§2.2.3.2
+// allows alternative initial values; a receiver expecting the default must
+// reject them - this is the one way to present an integrity value that is off
+// by a single byte).
+func wrapWithMutatedIV(kek, p []byte, m *Mut) ([]byte, error) {
+	iv := cryptoref.KWDefaultIV()
+	var a [8]byte
+	copy(a[:], m.apply(iv[:]))
+	return cryptoref.KWWrapIV(kek, p, a)
 }
